@@ -46,7 +46,7 @@ fn c09_oracle_noise_restricted_rice() {
 fn c04_oracle_short_final_block() {
     use crate::source::MemSource;
     let mut bad = Vec::new();
-    for (len, bs) in [(33usize, 32usize), (65, 32), (40, 33), (20, 32), (4097, 4096)] {
+    for (len, bs) in [(33usize, 32usize), (65, 32), (40, 33), (20, 32), (5, 32), (1, 32), (16, 4096), (4097, 4096)] {
         let mut cfg = config::Encoder::default();
         cfg.multithread = false;
         let cfg = cfg.into_verified().unwrap();
